@@ -50,13 +50,15 @@ def make_options(opt, extra):
     from eglib import classes as C
 
     idtitles = bool(opt & 1)
+    id_attr = bool(opt & 64) and not idtitles     # titles formatted from the vertices' own attribute named `id`
     custom_sub = bool(opt & 2)      # entries for subclasses of vertex / edge
     klass = bool(opt & 4)           # base vertex type 'class' instead of 'object'
     base_only_arrows = bool(opt & 8)
     urf = bool(opt & 16)
     o = {
         "skinparams": {"dpi": "300"} if opt & 32 else {},
-        Vertex: {"type": "class" if klass else "object", "show_attrs": ["^i$"] if not idtitles else ["^i$", "^zz"], "title_format": "$id" if idtitles else "v{i}"},
+        Vertex: {"type": "class" if klass else "object", "show_attrs": (["^i$"] if not idtitles else ["^i$", "^zz"]) if not id_attr else ["^id$", "^i$"],
+                 "title_format": "$id" if idtitles else ("n{id}" if id_attr else "v{i}")},
         DirectedEdge: dict(zip(("v1side", "v2side"), ARROWS[extra % 8] if base_only_arrows else ("", ">"))),
         UnDirectedEdge: {"v1side": "", "v2side": ""},
         TwoEndedLink: {"v1side": "x", "v2side": "x"},
@@ -67,7 +69,7 @@ def make_options(opt, extra):
         o[C.SubOdd] = {"v1side": "+", "v2side": "+"}
         # a DIFFERENT class with the same __name__ ("SubVertex"), configured differently
         o[C.SubVertexTwin] = {"type": "object", "show_attrs": ["^i$"], "title_format": "$id" if idtitles else "w{i}"}
-    return o, dict(idtitles=idtitles, custom_sub=custom_sub, urf=urf)
+    return o, dict(idtitles=idtitles, custom_sub=custom_sub, urf=urf, id_attr=id_attr)
 
 
 def nearest(cls, options):
@@ -123,6 +125,9 @@ def _check_render(case, vs, ls, u, opt, keep):
     from edgegraph.output import plantuml
 
     options, flags = make_options(opt, case["extra"])
+    if flags.get("id_attr"):
+        for v in vs:
+            v.id = "x%d" % v.i      # user data that happens to be called `id`
     if "options" in keep:
         options = keep["options"]          # the caller reuses its table object
     else:
@@ -153,7 +158,7 @@ def _check_render(case, vs, ls, u, opt, keep):
         c, o = nearest(type(v), ref_options)
         if o["title_format"] == "$id":
             return hex(id(v))
-        return o["title_format"].format(i=v.i)
+        return o["title_format"].format(i=v.i, id=getattr(v, "id", None))
 
     def vtype(v):
         return nearest(type(v), ref_options)[1]["type"]
